@@ -71,14 +71,38 @@ def exact_case(task):
             else:
                 # sampling mode for larger trees: membership only
                 g = np.random.default_rng([task["seed"], 77])
-                for _ in range(task.get("draws", 50)):
+                oc = refmodel.OrderChecker(f)
+                pairs = oc.symmetric_pairs()
+                pa = np.array([p[0] for p in pairs], dtype=int)
+                pb = np.array([p[1] for p in pairs], dtype=int)
+                first = np.zeros(len(pairs), dtype=int)
+                draws = task.get("draws", 60)
+                done = 0
+                for _ in range(draws):
                     sigma = RootPermutationDistribution.sample(tree.copy(), g)
                     order = tuple(dp.idx for dp in sigma)
                     part.count("sampled_orders")
-                    if not refmodel.is_compatible_order(f, order):
+                    if not oc.ok(order):
                         part.violation("sampled data order incompatible with the tree (clone before a descendant / wrong set)",
-                                       {"forest": f.describe(), "order": order})
+                                       {"forest": f.describe() if n <= 40 else "wide forest, %d clones" % f.K,
+                                        "order": order[:60], "widest_sibling_set": max(len(k) for k in oc.kids + [f.tops()])})
                         break
+                    done += 1
+                    if len(pairs):
+                        pos = np.empty(max(oc.idxs) + 1, dtype=int)
+                        pos[list(order)] = np.arange(len(order))
+                        first += pos[pa] < pos[pb]
+                if done == draws and draws >= 60 and len(pairs):
+                    part.count("symmetric_pairs_watched", len(pairs))
+                    stuck = np.nonzero((first == 0) | (first == draws))[0]
+                    if len(stuck):
+                        a, b = pairs[int(stuck[0])]
+                        part.violation("two data points exchanged by a symmetry of the tree came out in the same relative "
+                                       "order in every one of %d draws (probability 2^-%d each under the uniform law)"
+                                       % (draws, draws - 1),
+                                       {"forest": f.describe() if n <= 40 else "wide forest, %d clones" % f.K,
+                                        "points": [int(a), int(b)], "stuck_pairs": int(len(stuck)), "pairs_watched": len(pairs),
+                                        "widest_sibling_set": max(len(k) for k in oc.kids + [f.tops()])})
             lp = float(RootPermutationDistribution.log_pdf(tree))
             # the same tree under other labellings / construction histories (pre-order relabelling as the run loop does
             # after every sweep, shuffled siblings, dictionary round trip)
@@ -101,7 +125,16 @@ def exact_case(task):
                     what += " (tree with >=2 outliers)"
                 part.violation(what, {"forest": f.describe(), "log_pdf": lp, "expected": -log_count_ref,
                                       "n_orders_reported": math.exp(-lp), "n_orders": math.exp(log_count_ref)})
-            part.sample({"forest": f.describe(), "n_orders": round(math.exp(log_count_ref)), "log_pdf": lp}, limit=2)
+            part.sample({"forest": f.describe() if n <= 40 else "wide forest, %d clones" % f.K,
+                         "n_orders": round(math.exp(log_count_ref)) if log_count_ref < 700 else "exp(%.1f)" % log_count_ref,
+                         "log_pdf": lp}, limit=2)
+            if n > 40:
+                part.count("wide_forests")
+                fan = {}
+                for p in f.parent:
+                    fan[p] = fan.get(p, 0) + 1
+                part.maxi("widest_sibling_set", max(fan.values()))
+                continue
             # the same clones with other outlier sets, scored back to back in this process (a density that is memoised
             # or otherwise carried over between trees must not leak from one outlier set to another)
             if n >= 2 and f.K >= 1:
@@ -129,8 +162,11 @@ def exact_case(task):
 def run(ctx):
     ctx.rule = ("every forest over n<=4 data points x every outlier subset (quick; n<=5 thorough) with the exact law of "
                 "sample() by exhaustive replay against the brute-force set of compatible orders; random forests up to 7 "
-                "points exhaustively and up to 12 points by membership + independent count; distinct = canonical tree")
+                "points exhaustively and up to 12 points by membership + independent count; wide forests (257-513 sibling "
+                "chains) by membership, count and symmetric pairs (two points exchanged by a symmetry of the tree must not "
+                "keep one relative order over 60 draws); distinct = canonical tree")
     ctx.assumptions = ["brute-force order enumeration and counting recursion cross-check each other",
+                       "symmetric-pair monitor: a correct sampler trips it with probability < 1e-12 per run (<=60000 pairs x 2^-59)",
                        "ChoiceRNG.shuffle models a uniform shuffle (distinct arrangements weighted by multiplicity)"]
     nmax = 4 if ctx.tier == "quick" else 5
     tasks = []
@@ -158,9 +194,30 @@ def run(ctx):
             fs.append((n, gen.random_forest(rng, n, p_outlier=[0.0, 0.15, 0.4][j % 3],
                                             shape=[None, "chain", "star", "bushy"][j % 4])))
         for n in set(m for m, _ in fs):
-            tasks.append({"n": n, "seed": ctx.seed, "exhaustive": False, "brute": False, "draws": 40,
+            tasks.append({"n": n, "seed": ctx.seed, "exhaustive": False, "brute": False, "draws": 60,
                           "forests": [f.describe() for m, f in fs if m == n]})
+    # wide trees: more than 256 / 300 sibling clones (chains of 1-3 clones of 1-2 points) under one clone or at top level
+    for i in range(6 if ctx.tier == "quick" else 48):
+        width = int([257, 300, 260, 513, 290, 400][i % 6])
+        blocks, parent, nxt = [], [], 0
+        hub = None
+        if i % 2:
+            blocks.append([nxt]); parent.append(None); nxt += 1
+            hub = 0
+        for w in range(width):
+            depth = int(rng.integers(1, 4)) if i % 3 else 1
+            up = hub
+            for _d in range(depth):
+                size = 1 + int(rng.random() < 0.2)
+                blocks.append(list(range(nxt, nxt + size))); parent.append(up); nxt += size
+                up = len(blocks) - 1
+        outs = list(range(nxt, nxt + (i % 3)))
+        f = gen.AForest(blocks, parent, outs)
+        tasks.append({"n": nxt + len(outs), "seed": ctx.seed, "exhaustive": False, "brute": False, "draws": 60,
+                      "forests": [f.describe()]})
     ctx.map("checks.c09", "exact_case", tasks, timeout=1200)
     ctx.exhaustive = False
+    if ctx.counters.get("wide_forests", 0) < 4:
+        ctx.inconc("wide forests not evaluated")
     if ctx.counters.get("paths", 0) < 500:
         ctx.inconc("fewer than 500 replayed shuffle paths")
